@@ -670,6 +670,8 @@ def g_adj_matrix(sg, rng, view, namer, cell_pool=("0", "0", "1"), p_bad_shape=0.
     if not pool or not sg.room_for_links(view):
         return None
     n = rng.choice([1, 2, 2, 3, 4])
+    if rng.random() < 0.04:
+        n = 0  # "any size": the empty graph is a matrix without rows
     if rng.random() < 0.85:
         verts = rng.sample(pool, min(n, len(pool)))
     else:
